@@ -190,3 +190,6 @@ func UnlockedWriteDesc() string { return "" }
 
 // PongsIgnored (engine-only): connections on which a pong arrived without a read-deadline renewal afterwards.
 func PongsIgnored() int { return 0 }
+
+// TornMessages (engine-only): data messages cut short by a close frame sent while they were being written.
+func TornMessages() int { return 0 }
